@@ -19,10 +19,12 @@ func init() {
 			"(R4) Cancel of a subscription/hook removes the receiver itself (pointer identity), registration appends under the write lock. " +
 			"(R5) lock pairing over the functions of package(s) database, database/record: " + lockRuleText + ". " +
 			"(R6) error discipline over the subscription, hook and controller code of package database: " + repoErrText + ". " +
+			"(R7) a subscription filters with the subscribing interface's own local/internal privileges, in that order (= C03-R5); " +
 			"NOT decided: exactly-once/in-order delivery over write histories, behaviour when the feed buffer is full.",
 		Rules: []ruleFn{c14R1, c14R2, c14R3, c14R4,
 			lockRuleFor("C14-R5", 20, []string{"database", "database/record"}, []string{}, map[string]string{}),
-			repoErrRuleFor("C14-R6", 14, func(c *Ctx, fn *ssa.Function) bool { p := short(fn.Pkg.Pkg.Path()); return p == "database" && (inFile(c, fn, "subscription.go") || inFile(c, fn, "hook.go") || inFile(c, fn, "hookbase.go") || inFile(c, fn, "controller.go")) }, map[string]string{})},
+			repoErrRuleFor("C14-R6", 14, func(c *Ctx, fn *ssa.Function) bool { p := short(fn.Pkg.Pkg.Path()); return p == "database" && (inFile(c, fn, "subscription.go") || inFile(c, fn, "hook.go") || inFile(c, fn, "hookbase.go") || inFile(c, fn, "controller.go")) }, map[string]string{}),
+			borrowRule(c03R5, "C03-R5", "C14-R7", 2, nil)},
 	})
 }
 
